@@ -302,6 +302,51 @@ theorem reachable_wf (ops : List Op) : WF (run ops) := by
 theorem clear_spec (a : Arr) : abs (clear a).1 = [] ∧ (clear a).1.size = 0 ∧ (clear a).1.tally = 0 := by
   simp [clear, abs]
 
+/-! ## heap operations keep the heap order (dense arrays, integer comparator) and the contents -/
+
+/-- a heap history: push / delete-at-index / update-at-index -/
+inductive HOp where
+  | push (v : Nat)
+  | del (i : Nat)
+  | upd (i v : Nat)
+
+def hstep (l : List Nat) : HOp → List Nat
+  | .push v => pushheap l v
+  | .del i => (deleteheap l i).1
+  | .upd i v => (updateheap l i v).1
+
+theorem hstep_heap (l : List Nat) (op : HOp) (h : HeapOrd l) : HeapOrd (hstep l op) := by
+  cases op with
+  | push v => exact pushheap_heap l v h
+  | del i =>
+    by_cases hi : i < l.length
+    · exact deleteheap_heap l i h hi
+    · simp only [hstep, deleteheap, hi, dite_false]; exact h
+  | upd i v =>
+    by_cases hi : i < l.length
+    · exact updateheap_heap l i v h hi
+    · simp only [hstep, updateheap, hi, dite_false]; exact h
+
+/-- the heap order holds after every history of heap operations starting from the empty array -/
+theorem reachable_heap (ops : List HOp) : HeapOrd (ops.foldl hstep []) := by
+  have : ∀ l, HeapOrd l → HeapOrd (ops.foldl hstep l) := by
+    induction ops with
+    | nil => intro l h; exact h
+    | cons op ops ih => intro l h; exact ih _ (hstep_heap l op h)
+  exact this [] (by intro i _ hi; simp at hi)
+
+/-- heap operations neither lose nor duplicate elements -/
+theorem heap_contents (l : List Nat) (v i : Nat) (hi : i < l.length) :
+    (pushheap l v).Perm (v :: l) ∧ (l[i] :: (deleteheap l i).1).Perm l ∧
+    (updateheap l i v).1.Perm (l.set i v) :=
+  ⟨pushheap_perm l v, deleteheap_perm l i hi, updateheap_perm l i v hi⟩
+
+theorem ex_heap : HeapOrd [9, 5, 7, 1] := by
+  intro i h0 hl
+  have : i = 1 ∨ i = 2 ∨ i = 3 := by simp at hl; omega
+  rcases this with h | h | h <;> subst h <;> simp [hparent]
+example : HeapOrd (hstep [9, 5, 7, 1] (.upd 3 8)) := hstep_heap _ _ ex_heap
+
 /-! ## non-vacuity: a concrete well-formed state with capacity 64 on which an insert at index 128
     (gap far beyond twice the capacity — the case in which the unrepaired doubling loop never
     returned) meets the hypotheses of the theorems above and succeeds -/
